@@ -47,7 +47,7 @@ def applies_at(commit, patch, files, tmp):
 
 
 def main():
-    for patch in sys.argv[1:]:
+    for patch in [a for a in sys.argv[1:] if not a.startswith("--")]:
         patch = os.path.abspath(patch)
         files = files_of(patch)
         tmp = tempfile.mkdtemp(prefix="rebase_")
@@ -85,6 +85,9 @@ def main():
             for f in files:
                 r = sh(["diff", "-u", os.path.join("a", f), os.path.join("b", f)], cwd=tmp, check=False)
                 out += r.stdout
+            if conflicts and "--theirs" not in sys.argv:
+                print("%s: %d conflicting hunk(s) against HEAD (base %s): NOT rewritten - review by hand, or pass --theirs when the change replaces the code the fix touched" % (patch, conflicts, base))
+                continue
             shutil.copy(patch, "%s.orig-%s" % (patch, base))
             open(patch, "w").write(out)
             print("%s: rebased from %s onto HEAD (%d conflicting hunk(s) resolved to the change's side)" % (patch, base, conflicts))
